@@ -67,6 +67,7 @@ theorem LiveOK_runOps (sc : Scripts) (f : Nat) (w : World) (me : Nat) (ops : Lis
   · intro s w me t x hh; exact hh
   · intro s w me t x hh; exact hh
   · intro s w me hh; exact LiveOK_congr s _ w _ hh (fun u hu => hu) rfl (fun u => rfl)
+  · intro s w me hh; exact hh
   · exact h
 
 /-! ### get_user_command touches neither the table nor the sockets -/
